@@ -803,13 +803,32 @@ func TestVerifC19(t *testing.T) {
 	r := vsched.Rep()
 	r.Assumption("go-quartz (v0.15.2) runs un-instrumented inside the bubble on the fake clock; its internal interleavings are not explored")
 	r.Assumption("cluster cron: the cluster engine is a fake whose ClaimScheduleFire is an atomic put-if-absent with TTL (the documented contract of internal/cluster.ClaimScheduleFire = olric NX+EX); olric and the real wrapper are not run; no node lags behind a tick by more than the claim TTL (the stale-tick skip is not exercised)")
-	depth := vsched.Pick(5, 6)
-	// the BFS gets at most 60% of the wall budget, the cron scenarios share the rest
+	depth := vsched.Pick(4, 6)
 	budget := 3600.0
 	if f, err := strconv.ParseFloat(os.Getenv("VERIF_BUDGET_S"), 64); err == nil {
 		budget = f
 	}
-	// every single operation first (depth 1), then the BFS proper whose first step is a pair
+	start := time.Now()
+
+	// ---- part 2 first (small): the cron scenarios share at most 40% of the wall budget
+	type cfg struct {
+		nodes, ticks int
+		cancel       bool
+	}
+	cfgs := vsched.Pick([]cfg{{2, 2, true}, {3, 1, false}, {3, 2, false}}, []cfg{{2, 2, true}, {2, 3, true}, {3, 2, false}, {3, 2, true}})
+	for k, cf := range cfgs {
+		cf := cf
+		name := fmt.Sprintf("cron-claim-%dnodes-%dticks", cf.nodes, cf.ticks)
+		if cf.cancel {
+			name += "-cancel"
+		}
+		dl := start.Add(time.Duration(0.4 * budget * float64(k+1) / float64(len(cfgs)) * float64(time.Second)))
+		vsched.Explore(vsched.Config{Scenario: name, Bound: 1, SplitDepth: 3, Deadline: dl, Params: map[string]any{
+			"nodes": cf.nodes, "ticks": cf.ticks, "cancel_on_node0": cf.cancel, "cron": "* * * * * *", "fault": "injected claim-store error (cost 1)",
+		}}, func(c *vsched.Chooser) vsched.Outcome { return c19CronRun(t, cf.nodes, cf.ticks, cf.cancel, c) })
+	}
+
+	// ---- part 1: every single operation first (depth 1), then the BFS proper whose first step is a pair
 	e := vsched.NewEnum("local-schedule-single-op", map[string]any{"alphabet": strings.Join(c19OpNames[:], " ")})
 	for o := c19Op(0); o < c19NumOps; o++ {
 		if !e.Mine() {
@@ -822,28 +841,7 @@ func TestVerifC19(t *testing.T) {
 		e.Case(o.String(), res.Obs, 1, o == c19SO || o == c19SP)
 	}
 	e.Done()
-	vsched.BFS(vsched.BFSConfig{Scenario: "local-schedule-ops", Depth: depth - 1, ShardFirstOp: true, Deadline: time.Now().Add(time.Duration(0.6 * budget * float64(time.Second))), Params: map[string]any{
+	vsched.BFS(vsched.BFSConfig{Scenario: "local-schedule-ops", Depth: depth - 1, ShardFirstOp: true, Params: map[string]any{
 		"operations_per_history": depth, "bfs_steps": "first step = 2 operations, every further step = 1", "d": c19D.String(), "i": c19I.String(), "alphabet": strings.Join(c19OpNames[:], " "),
 	}}, c19MacroAlphabet, func(h []c19Macro) vsched.StepResult { return c19Exec(t, c19Flatten(h)) }, func(m c19Macro) string { return m.String() })
-
-	type cfg struct {
-		nodes, ticks int
-		cancel       bool
-	}
-	cfgs := vsched.Pick([]cfg{{2, 2, true}, {3, 1, false}, {3, 2, false}}, []cfg{{2, 2, true}, {2, 3, true}, {3, 2, false}, {3, 2, true}})
-	var scs []vsched.Scenario
-	for _, cf := range cfgs {
-		cf := cf
-		name := fmt.Sprintf("cron-claim-%dnodes-%dticks", cf.nodes, cf.ticks)
-		if cf.cancel {
-			name += "-cancel"
-		}
-		scs = append(scs, vsched.Scenario{
-			Cfg: vsched.Config{Scenario: name, Bound: 1, SplitDepth: 3, Params: map[string]any{
-				"nodes": cf.nodes, "ticks": cf.ticks, "cancel_on_node0": cf.cancel, "cron": "* * * * * *", "fault": "injected claim-store error (cost 1)",
-			}},
-			Run: func(c *vsched.Chooser) vsched.Outcome { return c19CronRun(t, cf.nodes, cf.ticks, cf.cancel, c) },
-		})
-	}
-	vsched.ExploreAll(scs)
 }
